@@ -3,12 +3,14 @@ package main
 // unitSpec describes one generator/oracle unit of a property: which test of
 // the checks package runs it and with which budgets.
 type unitSpec struct {
-	Name  string // statistics unit name (as registered in the checks package)
-	Test  string // test function name
-	Rapid bool   // driven by rapid (gets -rapid.checks / -rapid.seed)
-	Race  bool   // needs the -race build
-	Tier  string // "" = both tiers, else only in the named tier
-	Steps int    // -rapid.steps for state-machine properties
+	Name      string // statistics unit name (as registered in the checks package)
+	Test      string // test function name
+	Rapid     bool   // driven by rapid (gets -rapid.checks / -rapid.seed)
+	Race      bool   // needs the -race build
+	Tier      string // "" = both tiers, else only in the named tier
+	Steps     int    // -rapid.steps for state-machine properties
+	Fuzz      string // native fuzz target (go test -fuzz), run for FuzzTimeS seconds
+	FuzzTimeS int
 
 	QuickChecks, ThoroughChecks     int // rapid cases per shard
 	QuickShards, ThoroughShards     int
@@ -72,6 +74,7 @@ var specs = map[string]propSpec{
 		Units: []unitSpec{
 			{Name: "rapid-unconstrained-expressions", Test: "TestC15Rapid", Rapid: true, QuickChecks: 60000, ThoroughChecks: 800000, QuickShards: 4, ThoroughShards: 14},
 			{Name: "enum-ill-typed-calls", Test: "TestC15Enum", QuickShards: 2, ThoroughShards: 2},
+			{Name: "fuzz-eval", Fuzz: "FuzzEval", Tier: "thorough", FuzzTimeS: 120, ThoroughShards: 1, ThoroughTimeoutS: 900},
 		},
 		Assumptions: []string{"all legitimate loops of the engine go through the navigator, so an operation budget of 2*10^7 (confirmed at 4*10^7) on documents of <= ~15 nodes decides non-termination deterministically", "a panic whose value is an error but not a runtime.Error is taken to be raised deliberately by the package", "the harness navigators honour the NodeNavigator contract"},
 	},
@@ -124,6 +127,7 @@ var specs = map[string]propSpec{
 		Units: []unitSpec{
 			{Name: "rapid-mutated-inputs", Test: "TestC06Rapid", Rapid: true, QuickChecks: 100000, ThoroughChecks: 1000000, QuickShards: 4, ThoroughShards: 12},
 			{Name: "enum-deep-nesting", Test: "TestC06Deep", QuickShards: 2, ThoroughShards: 4, ThoroughTimeoutS: 3000},
+			{Name: "fuzz-compile", Fuzz: "FuzzCompile", Tier: "thorough", FuzzTimeS: 120, ThoroughShards: 1, ThoroughTimeoutS: 900},
 		},
 		Assumptions: []string{"termination is decided within an explicit wall-clock margin (20 s for inputs <= 64 KB whose typical cost is < 10 ms, re-tried once alone); an algorithm that is merely slow on inputs larger than the generated ones is out of reach", "the quick tier runs the depth cases under debug.SetMaxStack(8 MB): a legitimate process configuration under which unbounded recursion shows at depth 10^5 instead of 3*10^6"},
 	},
